@@ -558,6 +558,13 @@ def r4_count_write_pairing(ctx, rule):
                     ok = False
                     ctx.bad(rule, qual, 'count returned by %s is not added to num_guesses' % call_name(st.value),
                             'guesses written by the recursion are not reported', None, st)
+        # the count starts at 0
+        for st_ in walk_stmts(fn.body):
+            if isinstance(st_, ast.Assign) and len(st_.targets) == 1 and U(st_.targets[0]) == 'num_guesses' and isinstance(const(st_.value), int) \
+                    and not isinstance(const(st_.value), bool) and const(st_.value) != 0:
+                ok = False
+                ctx.bad(rule, qual, 'num_guesses starts at %s' % U(st_.value), 'the emitter reports the number of guesses it wrote: started at 1, every call '
+                        '(and every level of the recursion) reports one guess too many and --limit N ends early', None, st_, firm=True)
         rets = [s for s in walk_stmts(fn.body) if isinstance(s, ast.Return)]
         for r in rets:
             v = U(r.value) if r.value is not None else 'None'
